@@ -101,6 +101,31 @@ def run(ctx, drv):
     ctx.exhaustive = True
     ctx.notes.append(f"exhaustive over widths 1..{widths[-1] if ctx.quick() else 599} (all values, all bit strings of the variable's length)")
 
+    # the lists handed out by encode / rand belong to the caller: operators flip their bits in place.  Whatever a type object hands
+    # out, editing it must not change what the same type object encodes or decodes afterwards
+    for (lo, hi) in [(0, 7), (3, 12), (-5, 5), (0, 100), (10, 1000), (0, 65535), (-40000, 25535), (0, 70000)]:
+        t = impl(T.Integer, lo, hi)
+        if isinstance(t, str):
+            continue
+        vals = sorted({lo, hi, (lo + hi) // 2, lo + 1, hi - 1} | {rng.randrange(lo, hi + 1) for _ in range(12)})
+        before = {v: list(impl(t.encode, v)) for v in vals}
+        for v in vals:
+            e = impl(t.encode, v)
+            if isinstance(e, list) and e:
+                for j in range(len(e)):
+                    e[j] = not e[j]                      # in place, on the object that encode returned
+        r = impl(t.rand)
+        if isinstance(r, list) and r:
+            r[0] = not r[0]
+        for v in vals:
+            e2 = impl(t.encode, v)
+            d2 = impl(t.decode, list(before[v]))
+            if e2 != before[v] or d2 != v:
+                ctx.fail("type-object-changed-by-editing-a-returned-encoding", {"min": lo, "max": hi, "value": v}, [show(e2) if not isinstance(e2, str) else e2, d2],
+                         [show(before[v]), v], "types.Integer.encode / rand")
+                break
+        ctx.case(("inplace", lo, hi), True)
+    ctx.count("in_place_edit_histories", 8)
     # huge bounds, small widths: the offset must not pass through a double on the way
     for off in [2 ** 52, 2 ** 53, 2 ** 53 + 1, -(2 ** 53) - 13, 10 ** 18, 2 ** 60 + 7, -(2 ** 63), 2 ** 64 - 5, 2 ** 100]:
         for w in (1, 5, 10, 21, 37):
